@@ -83,8 +83,8 @@ TRelease(i, E)  == E.op = "Release"  /\ Release(E.tid)
 TRelBegin(i, E) == E.op = "RelBegin" /\ RelBegin(E.tid)
 TRelEnd(i, E)   == E.op = "RelEnd"   /\ RelEnd(E.tid)
 TTick(i, E)     == E.op = "Tick"     /\ Tick
-TBcast(i, E)    == E.op = "Bcast"    /\ \/ E.r = "acc" /\ BcastAcc(E.tid)
-                                        \/ E.r = "rej" /\ BcastRej(E.tid)
+TBcast(i, E)    == E.op = "Bcast"    /\ \/ E.r = "acc" /\ BcastAcc(E.tid, E.pre)
+                                        \/ E.r = "rej" /\ BcastRej(E.tid, E.pre)
 TMine(i, E)     == E.op = "Mine"     /\ Mine
 TReward(i, E)   == E.op = "Reward"   /\ Reward(E.v, E.id)
 TRestart(i, E)  == E.op = "Restart"  /\ Restart
